@@ -4,7 +4,8 @@ from props import solverstream as ss, tracecheck as tc, enctie, antie
 
 THEOREMS = ["C02_reference_correct", "C02_facts_hold", "C02_rup_sound", "C02_refutation_sound",
             "C02_trace_no_false_unsat", "C02_solvable_not_refuted",
-            "C02_encoder_adds_facts", "C02_encoder_sound", "C02_analyze_sound", "C02_analyses_entail"]
+            "C02_encoder_adds_facts", "C02_encoder_sound", "C02_analyze_sound", "C02_analyses_entail",
+            "C02_unsolvable_core_refutes"]
 CHECKER = ("coqc Props/C02.v + Print Assumptions; harness solve_cases (debug+release, sync+yield, several activity "
            "parameters): (a) hook logs of every Unsolvable -> extracted check_unsat_log (facts, RUP of every learnt clause "
            "from its recorded antecedents, root-level conflict), (b) verdict compared with extracted u_solvableb, (c) extracted "
@@ -63,6 +64,11 @@ def run(res, tier, seed, replay):
                           f"list, the number of pops, the backjump level or the asserted literal differs from the model of Solver::analyze, "
                           f"or a side condition of C02_analyze_sound fails: {r['an']}; the verdict itself agrees with the reference",
                           dict(tc.trace_replay(r), analyses=r["an"]))
+        if k == "unsat" and not antie.ok_unsolv(r):
+            res.tie_break(f"conflict-report correspondence no longer checks for an Unsolvable run in {r['stream']}: the clauses collected by "
+                          f"analyze_unsolvable differ from the model's or a side condition of C02_unsolvable_core_refutes fails: "
+                          f"{r.get('unsolv')}; the verdict itself agrees with the reference",
+                          dict(tc.trace_replay(r), unsolv=r.get("unsolv")))
         if k == "sat" and want is False:
             res.violation(key, f"solver returned {r['obs']['outcome']['sat']} but no valid selection exists in {r['stream']}",
                           ss.replay_obj(r))
